@@ -23,7 +23,7 @@ RULE = ("Hypothesis draws either a string of the multilingual corpus (language f
 ASSUMPTIONS = ["one language per case: with several candidate languages strictness legitimately changes which language's reading is accepted (C13)",
                "PREFER_DATES_FROM stays at its default (a two-digit year takes its century from the clock by design)",
                "relative-time parser is not enabled: the property is about absolute date strings"]
-ESSENTIAL = ["src:corpus", "src:generated", "src:format", "src:timestamp", "mode:strict", "mode:require", "filtered", "passed-through",
+ESSENTIAL = ["zero-field", "src:corpus", "src:generated", "src:format", "src:timestamp", "mode:strict", "mode:require", "filtered", "passed-through",
              "parts:none-missing", "parts:day-missing", "parts:year-missing"]
 
 PARTS = ["day", "month", "year"]
@@ -79,6 +79,8 @@ def check_case(case):
         required = list(mode)
     base, strict_items = tuple(base), tuple(strict_items)
     cls = ["src:" + case["src"], "mode:" + ("strict" if mode == "strict" else "require")]
+    if case.get("zero_field"):
+        cls.append("zero-field")
     present = case.get("present")
     if present is not None:
         missing = [p for p in PARTS if p not in present]
@@ -209,9 +211,10 @@ def cases(draw):
                 has["weekday"] = False
         else:
             has["weekday"] = False
+        zero = draw(st.integers(0, 7)) == 0  # a zero field ('00 March 2015', '00/03/2015') states no day/month at all
         if named:
             if has["day"]:
-                toks.append(str(d))
+                toks.append(draw(st.sampled_from(["00", "0"])) if zero else str(d))
             if has["month"]:
                 toks.append(draw(st.sampled_from(ms[m])))
             if has["year"]:
@@ -221,7 +224,7 @@ def cases(draw):
                 numeric_ambiguous = True  # a bare two-digit number next to a month name is a year in year-first locales
         else:
             order = data.info(lang).get("date_order", "MDY")
-            f = {"D": "%02d" % d if has["day"] else None, "M": "%02d" % m if has["month"] else None,
+            f = {"D": ("00" if zero else "%02d" % d) if has["day"] else None, "M": "%02d" % m if has["month"] else None,
                  "Y": "%04d" % y if has["year"] else None}
             nums = [f[ch] for ch in order if f[ch]]
             body = " ".join(toks + ["/".join(nums)] if nums else toks)
@@ -234,6 +237,9 @@ def cases(draw):
         if not body:
             body = str(y)
             has["year"] = True
+        if zero and has["day"]:
+            numeric_ambiguous = True  # no claim about which parts a zero field states; the metamorphic relations still apply
+            c["zero_field"] = True
         c.update(s=body, lang=lang, present=None if numeric_ambiguous else [p for p in PARTS if has[p]])
     return c
 
